@@ -100,6 +100,10 @@ class Analyzer:
         for s_ in sites:
             if s_.status is None:
                 r = self.reviewed.get(s_.key()) or self.reviewed.get(s_.fn.short + '#*' + s_.kind)
+                if not r and s_.kind in ('index', 'bounds'):
+                    # a table kept in a Vec is indexed through Index::index, the same table kept in an array through a
+                    # bounds assertion: one reviewed reason covers both
+                    r = self.reviewed.get(s_.fn.short + '#*' + ('bounds' if s_.kind == 'index' else 'index'))
                 if r:
                     s_.status, s_.reason = 'REVIEWED', r
         self._an[name] = sites
@@ -631,6 +635,11 @@ class FnAnalysis:
                     if r.name == 'RangeTo::RangeTo':
                         return self.iv(r.args[0], block, depth + 1)
                     if r.name == 'RangeFrom::RangeFrom':
+                        bl_ = self.builder_lin(e.args[0], block, depth + 1) if depth < 10 else None
+                        if bl_ is not None:
+                            la, lc = self.linform(r.args[0])
+                            if la == bl_[0] and bl_[1] - lc >= 0:
+                                return (bl_[1] - lc, bl_[1] - lc)      # (sum of the appends) - start, the symbolic parts cancel
                         a = self.iv(r.args[0], block, depth + 1)
                         return (max(0, base[0] - a[1]), max(0, base[1] - a[0]) if base[1] < INF else INF)
                     if r.name == 'RangeFull::RangeFull':
@@ -775,6 +784,54 @@ class FnAnalysis:
             total_lo += n[0] * mult[0]
             total_hi = INF if (total_hi >= INF or n[1] >= INF or mult[1] >= INF) else total_hi + n[1] * mult[1]
         return (total_lo, total_hi)
+
+    def builder_lin(self, e, block, depth=0):
+        """length of a locally built Vec as a linear form ({'len(<canon>)': coef}, const) when every append that
+        precedes `block` is outside loops and has either an exact length or is a whole slice/Vec value; else None"""
+        from .builder import appends
+        fn, P = self.fn, self.P
+        e = strip(e)
+        if not (e.k == 'call' and last(e.name) in ('new', 'with_capacity') and 'Vec' in (e.name or '')) or not e.site:
+            return None
+        cb = e.site[0]
+        t = fn.blocks[cb]['term']
+        if t['k'] != 'call' or t['dest']['p']:
+            return None
+        L = t['dest']['l']
+        tb = fn.blocks[t['target']] if t['target'] is not None else None
+        if tb:
+            for st in tb['stmts']:
+                if st['k'] == 'assign' and not st['lhs']['p'] and st['rv']['k'] == 'use' and st['rv']['op']['k'] == 'move' and st['rv']['op']['pl']['l'] == L:
+                    L = st['lhs']['l']
+                    break
+        KEEP_LEN = ('other:index_mut', 'other:deref_mut', 'other:as_mut_slice', 'other:iter_mut', 'other:copy_from_slice', 'other:clone_from_slice',
+                    'other:fill', 'other:swap', 'other:reverse', 'other:sort', 'other:as_mut', 'other:as_mut_ptr', 'other:last_mut', 'other:first_mut', 'other:get_mut')
+        atoms, const = {}, 0
+        for a in appends(fn, P, L, cb):
+            if a.kind in KEEP_LEN:
+                continue
+            before = block in fn.reachable(a.block) and a.block not in fn.reachable(block) if a.block != block else False
+            after_possible = a.block in fn.reachable(block)
+            if not before and not after_possible:
+                continue
+            if a.in_loop or (after_possible and not before) or a.kind.startswith('other'):
+                return None
+            if a.kind in ('byte', 'u8') or last(a.callee) == 'push':
+                const += 1
+                continue
+            w = {'u16': 2, 'u32': 4, 'u64': 8}.get(a.kind)
+            if w:
+                const += w
+                continue
+            if a.elem is None:
+                return None
+            n = self.length(a.elem, a.block, depth + 1)
+            if n[0] == n[1]:
+                const += n[0]
+            else:
+                k_ = 'len(%s)' % self.cn.c(a.elem)
+                atoms[k_] = atoms.get(k_, 0) + 1
+        return atoms, const
 
     # ---------------------------------------------------------------- sites
     def run(self):
@@ -1100,7 +1157,8 @@ class FnAnalysis:
                         why.append('end <= length (symbolic)')
                     else:
                         ok_hi = False
-                        if strip(base).k == 'param' and h[1] < INF and h[0] == h[1]:
+                        if strip(base).k == 'param' and h[1] < INF and (h[0] == h[1] or (h[1] < (1 << 31) and self.only_counters(hi_e))):
+                            # a bound that depends only on constant-range loop counters takes its maximum in some iteration
                             s.need = (strip(base).name, h[1])
                 ok_lo = True
                 if lo_e is not None:
@@ -1217,12 +1275,37 @@ class FnAnalysis:
                 s.status, s.reason = 'OK', 'insert position <= length'
             return
 
+    def only_counters(self, e, depth=0):
+        """the expression is built from constants and the variables of loops over constant ranges only"""
+        e = strip(e)
+        if depth > 12:
+            return False
+        if const_int(e) is not None:
+            return True
+        if e.k == 'field' and e.name == '0' and e.args:
+            inner = strip(e.args[0])
+            if inner.k == 'field' and inner.name == 'as Some' and inner.args:
+                src = strip(inner.args[0])
+                if src.k == 'call' and last(src.name) == 'next' and src.args:
+                    it = self.iter_source(src.args[0])
+                    return it[0] == 'range' and const_int(it[1].args[0]) is not None and const_int(it[1].args[1]) is not None
+            if inner.k == 'binop':
+                return all(self.only_counters(a, depth + 1) for a in inner.args)
+        if e.k in ('binop', 'cast', 'unop') and e.args:
+            return all(self.only_counters(a, depth + 1) for a in e.args)
+        return False
+
     def sym_le(self, x, base, b):
         """x <= len(base) by symbolic shape"""
         xs, bs = self.cn.c(x), self.cn.c(base)
         L = 'len(%s)' % bs
         if xs == L:
             return True
+        bl_ = self.builder_lin(base, b)
+        if bl_ is not None:
+            la, lc = self.linform(x)
+            if la == bl_[0] and lc <= bl_[1]:
+                return True       # start = (symbolic part of the built length) + c with c <= the constant part
         # i*k + k with i in 0..len/k
         m = re.match(r'^AddWithOverflow\(MulWithOverflow\(each\(Range::Range\{0, Div\((.*), (\d+)\)\}\), (\d+)\)\.0, (\d+)\)\.0$', xs)
         if m and m.group(1) == L and m.group(2) == m.group(3) == m.group(4):
